@@ -131,6 +131,9 @@ var ExcludedForms = []ExcludedForm{
 	// an EMBEDDED struct that is itself tagged parquet:"-"
 	{Name: "dash_embedded_struct", Decl: "XEmb%d `parquet:\"-\"`", ExtraName: "XEmb%d", ExtraFields: []string{"Rev int32", "Note string"}},
 	{Name: "dash_embedded_struct_json", Decl: "XEmj%d `json:\"-\" parquet:\"-\"`", ExtraName: "XEmj%d", ExtraFields: []string{"Amount float64"}},
+	// an embedded struct whose TYPE is unexported (the field it declares is unexported) although
+	// its own fields are exported
+	{Name: "unexported_embedded_struct", Decl: "xaudit%d", ExtraName: "xaudit%d", ExtraFields: []string{"Rev int64", "By string"}},
 	// "share": the excluded name is ADDED TO THE DECLARATION of the exported field that follows
 	// (F1 int32 becomes F1, hid1 int32); at the end of a struct it degrades to an inserted field
 	{Name: "multi_name_share", Decl: "hid%d", Import: ""},
